@@ -194,6 +194,9 @@ class Packet(_with_metaclass(bisturi.packet_builder.MetaPacket, object)):
         # Pseudo fields (the Move of at/shift/aligned, Em) never hold a
         # value: their slot is unset or does not exist; read them as None.
         for name, f, pack, _ in self.get_fields():
+            # A described field is compared through its descriptor (what the
+            # user reads), not through the hidden slot that pack() rewrites.
+            name = f.descriptor_name or name
             if getattr(self, name, None) != getattr(other, name, None):
                 return False
 
